@@ -166,6 +166,18 @@ DERIVE_SPEC = r"""
 // That is the token the general path writes only if the name contains no quote character: must_be_valid_iden must guarantee it.
 pub open spec fn is_quote_char(c: char) -> bool { c == '`' || c == '"' }
 pub open spec fn quote_free(s: Seq<char>) -> bool { forall|i: int| 0 <= i < s.len() ==> !is_quote_char(#[trigger] s[i]) }
+// a PLAIN name: ASCII letters, digits and `_` only - no character any quote pair could be made of (also user-made pairs such as `[` `]`)
+pub open spec fn is_plain(c: char) -> bool { ('a' <= c && c <= 'z') || ('A' <= c && c <= 'Z') || ('0' <= c && c <= '9') || c == '_' }
+pub open spec fn all_plain(s: Seq<char>) -> bool { forall|i: int| 0 <= i < s.len() ==> is_plain(#[trigger] s[i]) }
+pub proof fn lemma_plain_is_quote_free(s: Seq<char>) requires all_plain(s) ensures quote_free(s)
+{ assert forall|i: int| 0 <= i < s.len() implies !is_quote_char(#[trigger] s[i]) by { assert(is_plain(s[i])); } }
+pub proof fn lemma_plain_raw(name: Seq<char>, q: Quote)
+    requires all_plain(name), !is_plain(q.1 as char)
+    ensures dblq(name, q.1 as char) == name, tokq(name, q) == seq![q.0 as char] + name + seq![q.1 as char]
+{
+    assert(!name.contains(q.1 as char)) by { if name.contains(q.1 as char) { let k = choose|k: int| 0 <= k < name.len() && name[k] == q.1 as char; assert(is_plain(name[k])); } }
+    lemma_rc_absent_i(name, q.1 as char, seq![q.1 as char, q.1 as char]);
+}
 // R-charfn (trusted, std documentation): the ASCII classes
 #[verifier::external_body]
 fn vis_ascii_alphabetic(c: char) -> (r: bool) ensures r == (('a' <= c && c <= 'z') || ('A' <= c && c <= 'Z')) { c.is_ascii_alphabetic() }
@@ -208,16 +220,16 @@ def derive_fast_path(u):
         ptxt = ptxt.replace("c.is_ascii_alphabetic()", "vis_ascii_alphabetic(c)").replace("c.is_ascii_alphanumeric()", "vis_ascii_alphanumeric(c)")
         if re.search(r"\bc\.[a-z_]+\(", ptxt):
             raise Unsupported("must_be_valid_iden: character test `%s` has no specification here" % ptxt)
-        return "fn %s(c: char) -> (r: bool)\n    // a character accepted in a plain name is not a quote character of any backend\n    ensures r ==> !is_quote_char(c),\n{ %s }\n" % (nm, ptxt)
+        return "fn %s(c: char) -> (r: bool)\n    // a character accepted in a plain name is an ASCII letter, digit or `_`: no quote character of any backend, nor of a user-made quote pair\n    ensures r ==> is_plain(c),\n{ %s }\n" % (nm, ptxt)
     import hashlib
     from vlib.gen import indent
     meta = {"kind": "code", "key": "derive::must_be_valid_iden", "props": P, "src": DERIVE, "src_line": it.line, "gid": 200000, "fname": "must_be_valid_iden", "canary_ok": True}
     text = (pred_fn("mbvi_first", preds[0]) + pred_fn("mbvi_every", preds[1]) + """// R-all: `name.chars().all(|c| P)` as the loop it abbreviates
 fn mbvi_all(name: &str) -> (r: bool)
-    ensures r ==> quote_free(name@),
+    ensures r ==> all_plain(name@),
 {
     for c in it: name.chars()
-        invariant it.index@ <= name@.len(), forall|i: int| 0 <= i < it.index@ ==> !is_quote_char(#[trigger] name@[i]),
+        invariant it.index@ <= name@.len(), forall|i: int| 0 <= i < it.index@ ==> is_plain(#[trigger] name@[i]),
     {
         if !mbvi_every(c) { return false; }
     }
@@ -229,8 +241,8 @@ fn mbvi_take1_all(name: &str) -> (r: bool) { name.chars().take(1).all(mbvi_first
 """)
     u.spec(text, "ident::derive-mbvi-helpers(R-all)", props=P)
     u.chunks.append(("fn must_be_valid_iden(name: &str) -> (r: bool)\n", dict(meta, kind="header")))
-    u.chunks.append((indent("ensures\n    // a name that takes the fast path contains no quote character of any backend\n    r ==> quote_free(name@),", 4) + "\n", dict(meta, kind="contract")))
-    u.chunks.append(("{\n    mbvi_take1_all(name) && mbvi_all(name)\n}\n\n", dict(meta)))
+    u.chunks.append((indent("ensures\n    // a name that takes the fast path is plain: ASCII letters, digits, `_` (hence free of every quote character)\n    r ==> all_plain(name@) && quote_free(name@),", 4) + "\n", dict(meta, kind="contract")))
+    u.chunks.append(("{\n    let r_ = mbvi_take1_all(name) && mbvi_all(name);\n    proof { if r_ { lemma_plain_is_quote_free(name@); } }\n    r_\n}\n\n", dict(meta)))
     u.functions.append({"item": "derive::must_be_valid_iden", "file": DERIVE, "line": it.line, "vpath": "must_be_valid_iden", "sha256": hashlib.sha256(body.encode()).hexdigest(),
                         "rules": [{"rule": "R-all", "before": "name.chars().take(1).all(P1) && name.chars().all(P2)", "after": "mbvi_take1_all(name) && mbvi_all(name), P1 / P2 as functions"}],
                         "kind": "fn", "has_contract": True, "props": P, "no_canary": False})
@@ -239,36 +251,42 @@ fn mbvi_take1_all(name: &str) -> (r: bool) { name.chars().take(1).all(mbvi_first
     gens = re.findall(r"quote!\s*\{\s*(fn prepare\(&self, s: &mut dyn ::std::fmt::Write, q: #sea_query_path::Quote\)\s*\{.*?\n\s*\})\s*\}", src, re.S)
     if not gens:
         raise LostAnchor("sea-query-derive: no generated `fn prepare` found inside quote!{..}")
-    if len(set(rl.norm_ws(g) for g in gens)) != 1:
-        raise Unsupported("sea-query-derive: the generated `fn prepare` bodies differ")
     guards = len(re.findall(r"let prepare = if (must_be_valid_iden\(table_name\)|is_all_valid) \{\s*quote!", src))
     if guards != len(gens):
         raise Unsupported("sea-query-derive: a generated `fn prepare` is not guarded by must_be_valid_iden / is_all_valid")
-    ctx = Ctx(u, "derive::generated-prepare")
-    g = gens[0].replace("#sea_query_path::Quote", "Quote").replace("s: &mut dyn ::std::fmt::Write", "s: &mut W").replace("fn prepare(", "fn prepare<W: VWrite>(")
-    g = r_unit_tail(r_fmt(g, ctx), ctx)
-    ctx.app("R-quote", "quote!{ fn prepare(..) { .. } } (x%d, identical)" % len(gens), "the function the macro generates")
-    header, fbody = g[:g.index("{")], g[g.index("{"):]
-    meta2 = {"kind": "code", "key": "derive::generated-prepare", "props": P, "src": DERIVE, "src_line": src[:src.index(gens[0])].count("\n") + 1, "gid": 200001, "fname": "prepare", "canary_ok": True}
     u.spec("pub struct DerivedIden { pub n: String }\nimpl DerivedIden {\n    pub open spec fn name(&self) -> Seq<char> { self.n@ }\n    // `unquoted` of a derived implementor writes the name the macro computed (write!(s, #name))\n    #[verifier::external_body]\n    fn unquoted<W: VWrite>(&self, s: &mut W) ensures final(s).text() == old(s).text() + self.name() { unimplemented!() }\n", "ident::DerivedIden", props=P)
-    u.chunks.append(("    " + header.strip() + "\n", dict(meta2, kind="header")))
-    spec = ("requires\n    // the macro emits this override only for names accepted by must_be_valid_iden (guard checked syntactically above)\n    quote_free(self.name()), is_backend_quote(q),\n"
-            "ensures " + APP % {"w": "s"} + "\n    // exactly the token the general Iden::prepare writes, hence ONE identifier token decoding to the name\n    " + NEW % {"w": "s"} + " == tokq(self.name(), q),\n    is_ident_tok(" + NEW % {"w": "s"} + ", self.name(), q.0 as char, q.1 as char),")
-    u.chunks.append((indent(spec, 8) + "\n", dict(meta2, kind="contract")))
-    proof = """proof {
-    lemma_quote_free_raw(self.name(), q);
+    distinct = []
+    for gtxt in gens:
+        if rl.norm_ws(gtxt) not in [rl.norm_ws(x) for x in distinct]:
+            distinct.append(gtxt)
+    for gi, gtxt in enumerate(distinct):
+        fname = "prepare" if gi == 0 else "prepare_%d" % gi
+        key = "derive::generated-prepare" + ("" if gi == 0 else "[%d]" % gi)
+        ctx = Ctx(u, key)
+        g = gtxt.replace("#sea_query_path::Quote", "Quote").replace("s: &mut dyn ::std::fmt::Write", "s: &mut W").replace("fn prepare(", "fn %s<W: VWrite>(" % fname)
+        g = r_unit_tail(r_fmt(g, ctx), ctx)
+        ctx.app("R-quote", "quote!{ fn prepare(..) { .. } } (%d occurrence(s), %d distinct)" % (len(gens), len(distinct)), "the function the macro generates")
+        header, fbody = g[:g.index("{")], g[g.index("{"):]
+        meta2 = {"kind": "code", "key": key, "props": P, "src": DERIVE, "src_line": src[:src.index(gtxt)].count("\n") + 1, "gid": 200001 + gi, "fname": fname, "canary_ok": True}
+        u.chunks.append(("    " + header.strip() + "\n", dict(meta2, kind="header")))
+        spec = ("requires\n    // the macro emits this override only for names accepted by must_be_valid_iden (guard checked syntactically above): plain names;\n"
+                "    // a quote character is not a letter, digit or `_` (the backends' pairs, and any user-made pair such as `[` `]`)\n    all_plain(self.name()), !is_plain(q.1 as char),\n"
+                "ensures " + APP % {"w": "s"} + "\n    // exactly the token the general Iden::prepare writes, hence ONE identifier token decoding to the name\n    " + NEW % {"w": "s"} + " == tokq(self.name(), q),\n    is_ident_tok(" + NEW % {"w": "s"} + ", self.name(), q.0 as char, q.1 as char),")
+        u.chunks.append((indent(spec, 8) + "\n", dict(meta2, kind="contract")))
+        proof = """proof {
+    lemma_plain_raw(self.name(), q);
     lemma_is_ident_tok(self.name(), q.0 as char, q.1 as char);
     assert(s.text() =~= t0 + (seq![q.0 as char] + self.name() + seq![q.1 as char]));
     assert(s.text().subrange(t0.len() as int, s.text().len() as int) =~= seq![q.0 as char] + self.name() + seq![q.1 as char]);
     assert(s.text().subrange(0, t0.len() as int) =~= t0);
 }"""
-    close = fbody.rstrip().rfind("}")
-    u.chunks.append(("    {\n        let ghost t0 = s.text();\n" + fbody[1:close].rstrip() + "\n", dict(meta2)))
-    u.chunks.append((indent(proof, 8) + "\n", dict(meta2, kind="proof:derive")))
-    u.chunks.append(("    }\n\n", dict(meta2)))
-    u.functions.append({"item": "derive::generated-prepare", "file": DERIVE, "line": meta2["src_line"], "vpath": "DerivedIden::prepare", "sha256": hashlib.sha256(gens[0].encode()).hexdigest(),
-                        "rules": ctx.apps, "kind": "fn", "has_contract": True, "props": P, "no_canary": False})
-    u.expected.append("prepare")
+        close = fbody.rstrip().rfind("}")
+        u.chunks.append(("    {\n        let ghost t0 = s.text();\n" + fbody[1:close].rstrip() + "\n", dict(meta2)))
+        u.chunks.append((indent(proof, 8) + "\n", dict(meta2, kind="proof:derive")))
+        u.chunks.append(("    }\n\n", dict(meta2)))
+        u.functions.append({"item": key, "file": DERIVE, "line": meta2["src_line"], "vpath": "DerivedIden::" + fname, "sha256": hashlib.sha256(gtxt.encode()).hexdigest(),
+                            "rules": ctx.apps, "kind": "fn", "has_contract": True, "props": P, "no_canary": False})
+        u.expected.append(fname)
     u.emit("}\n")
 
 PREPARE_PROOF = '''proof {
